@@ -6,6 +6,7 @@ import (
 	"os"
 	"runtime"
 	"strings"
+	"sync"
 	"time"
 
 	"github.com/apache/yunikorn-core/pkg/scheduler/objects"
@@ -39,6 +40,9 @@ type Step struct {
 
 // Engine runs one history against one core.
 type Engine struct {
+	predMu   sync.Mutex
+	predDeny map[string]bool
+
 	C                      *shim.Core
 	V                      *View
 	Cur                    *world.World
@@ -77,6 +81,20 @@ func NewEngine(c *shim.Core, cfg string) *Engine {
 	e := &Engine{C: c, V: NewView(), Obs: map[string]int64{}, Props: map[string]bool{}, ConfigYAML: cfg, Configs: []string{cfg}, quotaPreemptionEnabled: strings.Contains(cfg, "quotapreemptionenabled: true"),
 		Hist:           &History{NodeForced: map[string]bool{}, Preempted: map[string]int{}, AppStates: map[string][]string{}, States: map[string]bool{}},
 		barrierTimeout: 20 * time.Second}
+	// explicit predicate denials requested by operations come before the seeded answers of the case
+	base := c.S.Pred
+	c.S.Pred = func(key, node string, allocate bool) bool {
+		e.predMu.Lock()
+		denied := e.predDeny[key+"|"+node]
+		e.predMu.Unlock()
+		if denied {
+			return false
+		}
+		if base == nil {
+			return true
+		}
+		return base(key, node, allocate)
+	}
 	return e
 }
 
@@ -243,6 +261,14 @@ func (e *Engine) exec(o *Op) {
 		if !c.Sched.VerifQuotaPreemptionOnce() {
 			e.Inconclusive = "quota preemption did not finish"
 		}
+	case OpPredDeny:
+		e.predMu.Lock()
+		if e.predDeny == nil {
+			e.predDeny = map[string]bool{}
+		}
+		e.predDeny[o.Key+"|"+o.Node] = true
+		e.predMu.Unlock()
+		c.S.Record(&shim.Ev{Dir: "act", Kind: "predDeny", Key: o.Key, Node: o.Node})
 	case OpCleanup:
 		c.S.Record(&shim.Ev{Dir: "act", Kind: "cleanup"})
 		c.Partition().VerifCleanup()
